@@ -305,6 +305,23 @@ func (w *world) run(k *Case) (line, impl string) {
 		"challenge": "/{provisionerID}/challenge/{authzID}/{chID}", "cert": "/{provisionerID}/certificate/{certID}",
 		"revoke": "/{provisionerID}/revoke-cert"}[k.Route]
 
+	if k.Blank != "" {
+		bid := ""
+		switch {
+		case strings.HasPrefix(k.Blank, "order-") && (k.Route == "order" || k.Route == "finalize"):
+			bid = res.OrderID
+		case k.Blank == "cert-acct" && (k.Route == "cert" || k.Route == "revoke"):
+			bid = res.CertID
+		}
+		if bid == "" || ow == nil {
+			return "", ""
+		}
+		restore := w.blankRecord(k.Blank, bid)
+		if restore == nil {
+			return "", ""
+		}
+		defer restore()
+	}
 	if k.Mount2 {
 		// ca/ca.go mounts the same routes a second time under /2.0/acme; links are built with /acme either way
 		p = "/2.0" + p
@@ -489,6 +506,10 @@ func (w *world) run(k *Case) (line, impl string) {
 		prot["url"] = env.URL(env.Path(provName, "new-order")) + "x"
 	case "nonstring":
 		prot["url"] = 7
+	case "port-default", "port-other", "query", "fragment", "userinfo", "slash", "dot", "escaped":
+		// the request URL respelled the way URL libraries call "equivalent": the comparison in validateJWS is exact,
+		// so a url naming another port (another server on the host), or carrying anything extra, is not the request URL
+		prot["url"] = respellURL(reqURL, j.URL)
 	case "mount":
 		// the same route under the other mount point of the ACME routes
 		if k.Mount2 {
@@ -744,7 +765,7 @@ func (w *world) run(k *Case) (line, impl string) {
 		tgtN = in.id("acc:" + tgt)
 	case "order", "finalize":
 		if o, err := e.RealDB.GetOrder(ctx, tgt); err == nil {
-			ordF = fmt.Sprintf("%d:%d:%d", tgtN, in.id("acc:"+o.AccountID), in.idp("prov:", o.ProvisionerID))
+			ordF = fmt.Sprintf("%d:%d:%d", tgtN, in.idp("acc:", o.AccountID), in.idp("prov:", o.ProvisionerID))
 		}
 	case "authz":
 		if z, err := e.RealDB.GetAuthorization(ctx, tgt); err == nil {
@@ -761,7 +782,7 @@ func (w *world) run(k *Case) (line, impl string) {
 		}
 	case "cert":
 		if x, err := e.RealDB.GetCertificate(ctx, tgt); err == nil {
-			certF = fmt.Sprintf("%d:%d:0", tgtN, in.id("acc:"+x.AccountID))
+			certF = fmt.Sprintf("%d:%d:0", tgtN, in.idp("acc:", x.AccountID))
 		}
 	}
 	revSerial := ""
@@ -772,7 +793,7 @@ func (w *world) run(k *Case) (line, impl string) {
 			csame = x.Leaf != nil && bytes.Equal(x.Leaf.Raw, subCert.Raw)
 			tgtN = in.id("res:" + x.ID)
 			rv := e.IsRevoked(revSerial)
-			certF = fmt.Sprintf("%d:%d:%s", tgtN, in.id("acc:"+x.AccountID), c.B(rv))
+			certF = fmt.Sprintf("%d:%d:%s", tgtN, in.idp("acc:", x.AccountID), c.B(rv))
 		}
 	}
 
@@ -864,6 +885,35 @@ func provIndex(name string) int {
 // flipCase returns u with the case of the letters of one part inverted:
 // case-scheme (https), case-host, case-path (everything after the host but the last element),
 // case-id (the last path element: an account/order/authz/certificate id or a fixed word).
+// respellURL: u is https://host/path
+func respellURL(u, how string) string {
+	const pre = "https://"
+	rest := strings.TrimPrefix(u, pre)
+	slash := strings.Index(rest, "/")
+	if slash < 0 {
+		return u + "#"
+	}
+	host, pth := rest[:slash], rest[slash:]
+	switch how {
+	case "port-default":
+		return pre + host + ":443" + pth
+	case "port-other":
+		return pre + host + ":8443" + pth
+	case "query":
+		return u + "?"
+	case "fragment":
+		return u + "#x"
+	case "userinfo":
+		return pre + "u@" + host + pth
+	case "slash":
+		return u + "/"
+	case "dot":
+		return pre + host + "/." + pth
+	default: // one path character percent-encoded
+		return pre + host + "/%61" + strings.TrimPrefix(pth, "/a")
+	}
+}
+
 func flipCase(u, part string) string {
 	inv := func(s string) string {
 		b := []byte(s)
@@ -909,6 +959,77 @@ type storedAccount struct {
 	ProvisionerName string           `json:"provisionerName"`
 	CreatedAt       time.Time        `json:"createdAt"`
 	DeactivatedAt   time.Time        `json:"deactivatedAt"`
+}
+
+// replicas of nosql.dbOrder and nosql.dbCert (byte layout checked before use)
+type storedOrder struct {
+	ID               string            `json:"id"`
+	AccountID        string            `json:"accountID"`
+	ProvisionerID    string            `json:"provisionerID"`
+	Identifiers      []acme.Identifier `json:"identifiers"`
+	AuthorizationIDs []string          `json:"authorizationIDs"`
+	Status           acme.Status       `json:"status"`
+	NotBefore        time.Time         `json:"notBefore,omitempty"`
+	NotAfter         time.Time         `json:"notAfter,omitempty"`
+	CreatedAt        time.Time         `json:"createdAt"`
+	ExpiresAt        time.Time         `json:"expiresAt,omitempty"`
+	CertificateID    string            `json:"certificate,omitempty"`
+	Error            *acme.Error       `json:"error,omitempty"`
+}
+
+type storedCert struct {
+	ID            string    `json:"id"`
+	CreatedAt     time.Time `json:"createdAt"`
+	AccountID     string    `json:"accountID"`
+	OrderID       string    `json:"orderID"`
+	Leaf          []byte    `json:"leaf"`
+	Intermediates []byte    `json:"intermediates"`
+}
+
+// blankRecord empties one member of a stored order or certificate record (a record of an older release, or a
+// damaged one) and returns the function that puts the original bytes back; nil = could not be done faithfully.
+func (w *world) blankRecord(what, id string) func() {
+	table := []byte("acme_orders")
+	if what == "cert-acct" {
+		table = []byte("acme_certs")
+	}
+	raw, err := w.e.NoSQL.Get(table, []byte(id))
+	if err != nil {
+		return nil
+	}
+	var nu []byte
+	switch what {
+	case "order-prov", "order-acct":
+		var o storedOrder
+		if json.Unmarshal(raw, &o) != nil {
+			return nil
+		}
+		if same, _ := json.Marshal(&o); !bytes.Equal(same, raw) {
+			return nil
+		}
+		if what == "order-prov" {
+			o.ProvisionerID = ""
+		} else {
+			o.AccountID = ""
+		}
+		nu, _ = json.Marshal(&o)
+	case "cert-acct":
+		var x storedCert
+		if json.Unmarshal(raw, &x) != nil {
+			return nil
+		}
+		if same, _ := json.Marshal(&x); !bytes.Equal(same, raw) {
+			return nil
+		}
+		x.AccountID = ""
+		nu, _ = json.Marshal(&x)
+	default:
+		return nil
+	}
+	if w.e.NoSQL.Set(table, []byte(id), nu) != nil {
+		return nil
+	}
+	return func() { w.e.NoSQL.Set(table, []byte(id), raw) }
 }
 
 // rewriteAccount turns a stored account into one as older versions wrote it.
